@@ -276,6 +276,7 @@ func OracleC04(run *common.Run, id string, res *Result) int {
 // Budget of one harness run.
 type Budget struct {
 	Main, Contention, Twin, CbFail, Mount int
+	Small                                 bool // small-scope enumeration (graphs <= 3 nodes, sampled 4-node graphs) x roots x closed subsets
 	Reps                           int // extra schedules (latency seeds) per generated case
 }
 
@@ -401,6 +402,14 @@ func Drive(run *common.Run, prop string, b Budget) {
 	stream("cbfail", b.CbFail)
 	stream("mount", b.Mount)
 	stream("twin", b.Twin)
+	if b.Small {
+		codes := SmallCases()
+		run.Extra["small_scope_graphs"] = len(SmallGraphs())
+		run.Extra["small_scope_cases"] = len(codes)
+		for _, code := range codes {
+			one(Generate(code, "small", run.Thorough()))
+		}
+	}
 	os.Remove(currentCasePath(run.Dir))
 }
 
